@@ -121,8 +121,13 @@ int main(int argc, char** argv)
         rc = MPI_Recv(rbuf[i], n, MPI_INT, st.MPI_SOURCE, st.MPI_TAG, MPI_COMM_WORLD, &st);
         break;
       case 3:
-        while (!flag)
+        for (int it = 0; !flag && it < 3000; it++)
           MPI_Iprobe(src, tag, MPI_COMM_WORLD, &flag, &st);
+        if (!flag) { /* the message never shows up: give up instead of spinning for ever */
+          printf("V %d %d -99 -1 -1 -1 -1 -1 -1 -1 0\n", rank, i);
+          fflush(stdout);
+          continue;
+        }
         rc = MPI_Recv(rbuf[i], n, MPI_INT, st.MPI_SOURCE, st.MPI_TAG, MPI_COMM_WORLD, &st);
         break;
       default:
